@@ -151,6 +151,12 @@ pub fn run_check(ctx: &Ctx) -> Report {
     );
     rep.assumptions.push("stack effects of Appendix B are the machine's specification; infeasible paths are included on purpose".into());
     let table = Table::load();
+    let uncovered = crate::verifier::uncovered_opcodes(&table);
+    if !uncovered.is_empty() {
+        // a new opcode is not a violation: the stack-effect specification has to be extended first
+        eprintln!("C02: the opcode table has opcodes without a stack-effect specification: {uncovered:?} (machinery incomplete, inconclusive)");
+        std::process::exit(2);
+    }
     match self_test(&table) {
         Ok(n) => {
             rep.extra.insert("verifier_self_test_negative_examples".into(), json!(n));
